@@ -507,3 +507,17 @@ def r117(ctx):
     from rules import C16 as _c16
     from engine import report as _report
     _c16.r163(_report.renamed(ctx, {"R16.3": "R11.7"}))
+
+
+def shared_restore(ctx, rid, why):
+    """the persist / restore field agreement (R11.2) under another property's rule id; skipped (and said so) in a build
+    configuration that has no persistence layer"""
+    from engine import report as _report
+    if not any(b.d.krate == "vls_persist" for b in ctx.prog.bodies.values()):
+        ctx.rule(rid, "restart clause (persist / restore field agreement, C11 R11.2): not evaluated in this build configuration "
+                      "(no persistence layer in it)")
+        ctx.sample(rid, "skipped", "", "vls_persist is not part of this build configuration")
+        return
+    r112(_report.renamed(ctx, {"R11.2": rid}))
+    ctx.rule_text[rid] = ("restart clause: " + why + " Every persisted field of channel entry (setup, enforcement state), node "
+                          "state, tracker and monitors is serialised and restored into the same slot (same obligations as C11 R11.2).")
